@@ -1308,7 +1308,7 @@ def rand_sim(job):
             elig.append(e)
             p = sim_c18.spawn(w, pid, e, denied=(s + 1) in denied)
             p.nice = rnd.randint(-20, 19)
-            p.ioprio = rnd.choice([(0, 0), (1, rnd.randint(0, 7)), (2, rnd.randint(0, 7)), (3, 0)])
+            p.ioprio = rnd.choice([(0, 0), (1, rnd.randint(0, 7)), (2, rnd.randint(0, 7)), (3, 0), (3, rnd.randint(1, 7))])
             p.affinity = set(rnd.sample(sorted(e), rnd.randint(1, len(e))))
         rec = Recorder(t, rnd, np_, ncpu, elig, denied, sysres, unit, sim_c18.NR_OPEN)
         for s, pid in enumerate(pids):
@@ -1370,7 +1370,7 @@ def rand_live(job):
             rec = Recorder(t, rnd, 2, ncpu, elig, [1, 2] if unpriv else [], t.sysres, unit, capped)
             for s, pid in enumerate(pids):
                 os.setpriority(os.PRIO_PROCESS, pid, rnd.randint(-20, 19))
-                live_c18.raw_ioprio_set(pid, *rnd.choice([(0, 0), (1, rnd.randint(0, 7)), (2, rnd.randint(0, 7)), (3, 0)]))
+                live_c18.raw_ioprio_set(pid, *rnd.choice([(0, 0), (1, rnd.randint(0, 7)), (2, rnd.randint(0, 7)), (3, 0), (3, rnd.randint(1, 7))]))
                 os.sched_setaffinity(pid, set(rnd.sample(sorted(elig[s]), rnd.randint(1, len(elig[s])))))
                 for r in range(NRES):
                     hard = mine[r][1]
